@@ -1600,12 +1600,14 @@ class Counter(object):
         self.counters = context.counters
 
     def addtocounter(self, other):
+        # Like LaTeX's \addtocounter: only stepping a counter resets the
+        # counters declared within it
         self.value += int(other)
-        self.resetcounters()
 
     def setcounter(self, other):
+        # Like LaTeX's \setcounter: only stepping a counter resets the
+        # counters declared within it
         self.value = int(other)
-        self.resetcounters()
 
     def stepcounter(self):
         self.value += 1
